@@ -28,6 +28,13 @@ CLAIMED = {
          "witness shipped_single_row_accepted for the repaired defect F11; the model decides accept/reject and the returned values BITWISE against the real classes "
          "on random domains and k-grid relations incl. perturbations straddling the allclose threshold, both file layouts, single-row/single-value files.",
          "4 C12", "Lean 4 proof (decision logic stated outright) + bit-exact differential correspondence"),
+ 'C07': ("Lean theorems about the Domain model, for EVERY length N >= 1, every non-zero spacing, every finite dr/dk/length setter history and every array: "
+         "construct_ok_iff, reachable_fresh (induction over histories: the state equals the fresh Domain(length, dr) and dk*dr*length = pi), grid_size/grid_r/grid_k, "
+         "toFourier_linear, toReal_linear, toReal_toFourier and toFourier_toReal (from the kernel-checked DST orthogonality relations: dst3(dst2 x) = dst2(dst3 x) = 2N x), "
+         "maToFourier/maToReal_error_iff and _ok_iff (ValueError iff already in the target space), maToFourier/maToReal_spec (pairwise identical transform, symmetry, flag), ma_roundtrip; "
+         "negation witness length_setter_stale for the repaired defect F1. The model is compared with real Domains after every setter of random histories, its direct DST sums with "
+         "scipy.fftpack.dst and with to_fourier/to_real; freshness, grid shape, round trips, linearity and the MatrixArray clauses are evaluated on the implementation.",
+         "4 C07", "Lean 4 proof (trigonometric orthogonality, induction over setter histories) + differential correspondence"),
  'C09': ("Lean theorems about the closure model: py/hnc/msa/msA/msB_eq_published, core_branch (all closures, every r <= sigma), py/hnc/msa_linearises "
          "(|c+u| <= 2(gamma^2+u^2) on |gamma|,|u| <= 1/2), elementwise, and for the shipped Martynov-Sarkisov expression ms_shipped_formula plus the negation witness "
          "ms_shipped_not_zero_at_zero (known finding F6, pinned by a baseline test); the model is compared with all 8 classes/aliases on the real grid with bit-exact masks; "
@@ -47,7 +54,11 @@ CLAIMED = {
          "predicates are evaluated on the implementation.",
          "4 C11", "Lean 4 proof (induction, geometric sums, limits) + differential correspondence; partial for Koyama/NFJC kernels"),
 }
-NA = {}
+NA = {
+ 'C18': ("not applicable: the Cython extension pyPRISM/trajectory/Debyer.pyx cannot be built in this sandbox (the shipped Debyer.c was generated by Cython 0.28 and does not "
+         "compile against CPython 3.12 / numpy 2.5; re-cythonising fails on np.int_t and nogil tuple construction), so there is no executable implementation to tie a Lean "
+         "model to by correspondence, and OpenMP schedules are not something an executable Lean model exhibits (DESIGN.md section 4 C18)"),
+}
 def main():
     props = [json.loads(l) for l in open(os.path.join(HERE, 'properties.jsonl'))]
     checks = []; na = []
